@@ -777,7 +777,7 @@ func C19() *check.Property {
 			"PIPE-ARMS checks all generated PipeK: plain arm = the user's operators in order, instrumented arm = each operator followed by its processing-time observer with matching name, position and index.",
 		NotDecided:  "numeric equality of exported counters with an execution trace (follows from once-per-slot plus the grammar, not measured); the Prometheus client library; ee/plugins/otel.",
 		Assumptions: []string{"the core honours C01-C03 and C09", "prometheus.Counter.Inc / Observer.Observe do what their names say"},
-		Floors:      map[string]int{"instrumentation_scs": 9, "metric_updates": 9, "early_returns": 5, "prometheus_pipes": 20, "acquisitions": 150},
+		Floors:      map[string]int{"instrumentation_scs": 9, "metric_updates": 9, "early_returns": 5, "prometheus_pipes": 20, "acquisitions": 150, "aggregate_counters": 3},
 		Controls: map[string]string{
 			"ee/plugins/prometheus/zz_verif_controls_c19.go": pluginControl("roprometheus", []string{`"context"`, `"github.com/prometheus/client_golang/prometheus"`, `"github.com/samber/ro"`}, controlsC19),
 			"zz_verif_controls_c03.go":                       roControl(controlsC03),
